@@ -64,8 +64,11 @@ Dev(st, p, ox, oy, L) ==
       X == p[1] * L + ox   Y == p[2] * L + oy
   IN <<RoundDiv((X * m[1] + Y * m[3]) * U + m[5] * U * st.den * L, st.den * L * md),
        RoundDiv((X * m[2] + Y * m[4]) * U + m[6] * U * st.den * L, st.den * L * md)>>
-\* unit direction of a segment as <<dx, dy, len>>
-Dir(a, b) == <<b[1] - a[1], b[2] - a[2], SegLen(a, b)>>
+\* unit direction of a segment as <<dx, dy, len>> in lowest terms (keeps the 31-bit arithmetic
+\* of the miter tip small when coordinates have been scaled up)
+Dir(a, b) == LET dx == b[1] - a[1]  dy == b[2] - a[2]  l == SegLen(a, b)
+                 g == GCD(GCD(Abs(dx), Abs(dy)), l)
+             IN <<dx \div g, dy \div g, l \div g>>
 \* half-width offset along the left normal (-dy, dx) / len of direction d, times the sign s,
 \* expressed over the divisor 2 * len:  (w / 2) * n = w * (-dy, dx) / (2 len)
 NormOff(st, d, s) == <<-s * st.w * d[2], s * st.w * d[1], 2 * d[3]>>
@@ -96,8 +99,13 @@ DiscPiece(st, p) ==
 \* join at vertex p between incoming direction d1 and outgoing direction d2
 Turn(d1, d2) == d1[1] * d2[2] - d1[2] * d2[1]          \* > 0: turns to the left normal's side
 DotD(d1, d2) == d1[1] * d2[1] + d1[2] * d2[2]
-JoinPieces(st, p, d1, d2) ==
+\* la, lb: lengths (path units) of the two segments meeting at p.  A round join is the outer
+\* sector only; together with the two segment rectangles it covers the whole disc around the
+\* vertex when both segments are at least half the width long, otherwise the disc is left open.
+JoinPieces(st, p, d1, d2, la, lb) ==
   LET tr == Turn(d1, d2)
+      longEnough == 2 * la >= st.w /\ 2 * lb >= st.w
+      disc == IF longEnough THEN DiscPiece(st, p) ELSE [kind |-> "freedisc"] @@ DiscPiece(st, p)
       \* the outer side is opposite to the turn: with left normal n = (-dy, dx), a turn with
       \* tr > 0 bends towards +n, so the outer side is -n
       s == IF tr > 0 THEN -1 ELSE 1
@@ -118,14 +126,16 @@ JoinPieces(st, p, d1, d2) ==
         \* straight on: nothing; reversal: the join is degenerate for bevel/miter and a
         \* half disc of unspecified side for round (left open)
         (IF DotD(d1, d2) < 0 /\ st.join = "Round" THEN <<[kind |-> "freedisc"] @@ DiscPiece(st, p)>> ELSE <<>>)
-     ELSE CASE st.join = "Round" -> <<DiscPiece(st, p)>>
+     ELSE CASE st.join = "Round" -> <<disc>>
             [] st.join = "Bevel" -> <<bevel>>
             [] st.join = "Miter" -> IF mitered /\ D > 0 THEN <<[kind |-> "poly", v |-> <<P, A, X, B>>]>> ELSE <<bevel>>
 
-CapPieces(st, p, dout) ==
+\* la: length of the segment the cap sits on (a round cap is a half disc: with the segment's
+\* rectangle it covers the whole disc when the segment is at least half the width long)
+CapPieces(st, p, dout, la) ==
   CASE st.cap = "Butt" -> <<>>
     [] st.cap = "Square" -> <<SquareCap(st, p, dout)>>
-    [] st.cap = "Round" -> <<DiscPiece(st, p)>>
+    [] st.cap = "Round" -> IF 2 * la >= st.w THEN <<DiscPiece(st, p)>> ELSE <<[kind |-> "freedisc"] @@ DiscPiece(st, p)>>
 Neg(d) == <<-d[1], -d[2], d[3]>>
 
 RECURSIVE SegPieces(_, _, _)
@@ -135,7 +145,7 @@ SegPieces(st, p, i) ==
 RECURSIVE InnerJoins(_, _, _)
 InnerJoins(st, p, i) ==
   IF i >= Len(p) THEN <<>>
-  ELSE JoinPieces(st, p[i], Dir(p[i - 1], p[i]), Dir(p[i], p[i + 1])) \o InnerJoins(st, p, i + 1)
+  ELSE JoinPieces(st, p[i], Dir(p[i - 1], p[i]), Dir(p[i], p[i + 1]), SegLen(p[i - 1], p[i]), SegLen(p[i], p[i + 1])) \o InnerJoins(st, p, i + 1)
 
 SubpathPieces(st, sp) ==
   LET p0 == Dedup(sp.pts)
@@ -145,14 +155,14 @@ SubpathPieces(st, sp) ==
   IN IF n < 2 THEN <<>>
      ELSE IF ~sp.closed THEN
         SegPieces(st, p, 1) \o InnerJoins(st, p, 2)
-        \o CapPieces(st, p[1], Neg(Dir(p[1], p[2]))) \o CapPieces(st, p[n], Dir(p[n - 1], p[n]))
+        \o CapPieces(st, p[1], Neg(Dir(p[1], p[2])), SegLen(p[1], p[2])) \o CapPieces(st, p[n], Dir(p[n - 1], p[n]), SegLen(p[n - 1], p[n]))
      ELSE IF n = 2 THEN
         \* out and back: two coincident rectangles and reversal joins
-        SegPieces(st, p, 1) \o JoinPieces(st, p[2], Dir(p[1], p[2]), Dir(p[2], p[1]))
-                            \o JoinPieces(st, p[1], Dir(p[2], p[1]), Dir(p[1], p[2]))
+        SegPieces(st, p, 1) \o JoinPieces(st, p[2], Dir(p[1], p[2]), Dir(p[2], p[1]), SegLen(p[1], p[2]), SegLen(p[1], p[2]))
+                            \o JoinPieces(st, p[1], Dir(p[2], p[1]), Dir(p[1], p[2]), SegLen(p[1], p[2]), SegLen(p[1], p[2]))
      ELSE SegPieces(st, p, 1) \o <<RectPiece(st, p[n], p[1])>> \o InnerJoins(st, p, 2)
-          \o JoinPieces(st, p[n], Dir(p[n - 1], p[n]), Dir(p[n], p[1]))
-          \o JoinPieces(st, p[1], Dir(p[n], p[1]), Dir(p[1], p[2]))
+          \o JoinPieces(st, p[n], Dir(p[n - 1], p[n]), Dir(p[n], p[1]), SegLen(p[n - 1], p[n]), SegLen(p[n], p[1]))
+          \o JoinPieces(st, p[1], Dir(p[n], p[1]), Dir(p[1], p[2]), SegLen(p[n], p[1]), SegLen(p[1], p[2]))
 RECURSIVE AllPieces(_, _, _)
 AllPieces(st, sps, i) == IF i > Len(sps) THEN <<>> ELSE SubpathPieces(st, sps[i]) \o AllPieces(st, sps, i + 1)
 Pieces(st, sps) == IF st.w <= 0 THEN <<>> ELSE AllPieces(st, sps, 1)
